@@ -1,5 +1,6 @@
 import BoltonsVerif.Generated.C19_LineEndings
 import BoltonsVerif.Generated.C19_StripSets
+import BoltonsVerif.Generated.C19_PySplit
 /-
 C19 — model of the boltons line readers.
 
